@@ -79,7 +79,9 @@ type vfStore struct {
 	OpenErr   func(method, path string) error
 	CmdErr    func(method, path string) error
 	ListErr   func(method, path string) error
-	// ShortReads: ReadAt returns at most this many bytes (0 = off).
+	// ShortAt, if set, may cap a ReadAt at fewer bytes than asked for, with a nil error (a short
+	// DATA reply that is not the end of the file: unusual, legal for a peer). 0 = no cap.
+	ShortAt func(path string, off int64, n int) int
 	Now int64
 }
 
@@ -202,6 +204,11 @@ func (o *vfObj) ReadAt(p []byte, off int64) (int, error) {
 		if keep, perr := o.st.PartialAt(o.path, off, len(p)); perr != nil {
 			n := copy(p[:min(keep, len(p))], o.file.data[off:])
 			return n, perr
+		}
+	}
+	if o.st.ShortAt != nil {
+		if k := o.st.ShortAt(o.path, off, len(p)); k > 0 && k < len(p) && off+int64(k) < int64(len(o.file.data)) {
+			return copy(p[:k], o.file.data[off:]), nil
 		}
 	}
 	n := copy(p, o.file.data[off:])
